@@ -107,6 +107,16 @@ def check_tokenize(names, text, le):
 
 
 def chain_names(rng):
+    if rng.random() < 0.25:
+        # names with parentheses glued to words, spelled in the text with and without white space around them
+        pool = ['gpl (v2)', '(c) foo', 'gnu gpl (version 2)', 'mit', 'or', 'x(y)z', 'a (b) c', '(a)']
+        names = [(n, i + 1) for i, n in enumerate(rng.sample(pool, rng.randint(1, 4)))]
+        seq = []
+        for n, _ in rng.sample(names, len(names)):
+            seq.extend(gen.words_of(n))
+            if rng.random() < 0.5:
+                seq.append(rng.choice(['zz', 'or']))
+        return names, (seq + ['q'] * 12)[:12]
     words = ['a', 'b', 'c', 'd', 'e', 'f', 'g', '(', ')', 'İx', 'or']
     names = []
     k = rng.randint(2, 5)
